@@ -626,11 +626,14 @@ Error RACFGBuilder::on_before_invoke(InvokeNode* invoke_node) noexcept {
 
             // An 8-bit or 16-bit GP register passed for a wider integer parameter must be extended the same way
             // `move_reg_to_stack_arg()` extends it when the parameter lives on the stack - the upper bits of such a
-            // virtual register are undefined. (32-bit registers are passed as is.)
+            // virtual register are undefined. (Unsigned 32-bit registers are passed as is.)
             if (reg_group == RegGroup::kGp && TypeUtils::is_int(arg.type_id())) {
               TypeId src_type_id = cc().virt_reg_by_id(reg.id())->type_id();
-              if ((TypeUtils::is_gp8(src_type_id) || TypeUtils::is_gp16(src_type_id)) &&
-                  TypeUtils::size_of(arg.type_id()) > TypeUtils::size_of(src_type_id)) {
+              // A signed 32-bit register passed for a signed 64-bit parameter is sign extended as well (like on the stack);
+              // unsigned 32-bit registers (which also carry pointers in existing code) are still passed as is.
+              bool is_int32_to_int64 = src_type_id == TypeId::kInt32 && arg.type_id() == TypeId::kInt64;
+              if (((TypeUtils::is_gp8(src_type_id) || TypeUtils::is_gp16(src_type_id)) &&
+                   TypeUtils::size_of(arg.type_id()) > TypeUtils::size_of(src_type_id)) || is_int32_to_int64) {
                 Reg ext_reg;
                 ASMJIT_PROPAGATE(move_reg_to_reg_arg(invoke_node, arg, reg, Out(ext_reg)));
                 invoke_node->_args[arg_index][value_index] = ext_reg;
@@ -948,6 +951,11 @@ Error RACFGBuilder::move_reg_to_reg_arg(InvokeNode* invoke_node, const FuncValue
   if (TypeUtils::is_gp16(src_type_id)) {
     src.set_reg_t<RegType::kGp16>(reg.id());
     return cc().emit(sign_extend ? Inst::kIdMovsx : Inst::kIdMovzx, dst, src);
+  }
+
+  if (src_type_id == TypeId::kInt32 && dst_type_id == TypeId::kInt64) {
+    src.set_reg_t<RegType::kGp32>(reg.id());
+    return cc().emit(Inst::kIdMovsxd, dst, src);
   }
 
   return make_error(Error::kInvalidState);
